@@ -483,6 +483,10 @@ type helper struct {
 func (h *helper) n() *helper { h.needN = true; return h }
 func (h *helper) f() *helper { h.needF = true; return h }
 
+// ownResult: an in-place helper whose RESULT is nevertheless a slice of its own (heap.Sort sorts its argument in place and
+// returns a copy): the result shares storage with nothing and later calls on the same argument leave it alone.
+func (h *helper) ownResult() *helper { h.alias = 0; return h }
+
 func scalar(name string, uses mask, call func(e *env, c Call) any) *helper {
 	return &helper{name: name, class: clScalar, uses: uses, call: call}
 }
@@ -648,7 +652,7 @@ var registry = []*helper{
 
 	// package heap
 	inPlace("heap.FromSlice", sA, sA, func(e *env, c Call) any { return heap.FromSlice(e.a, comp(c.F)) }).f(),
-	inPlace("heap.Sort", sA, sA, func(e *env, c Call) any { return heap.Sort(e.a, comp(c.F)) }).f(),
+	inPlace("heap.Sort", sA, sA, func(e *env, c Call) any { return heap.Sort(e.a, comp(c.F)) }).f().ownResult(),
 }
 
 // rangeArgsOK keeps Range inside a small, certainly terminating domain.
